@@ -57,4 +57,53 @@ CHECKS = {
         "text": "For generated phase sets and per-component phase configurations each phase's rows must satisfy the reference law for that phase (table value, sleep value, or constructor value for loads; active lists for sources/regulators/switches/mux). solve(phase=p) must equal the rows of phase p cell for cell, unknown phases must raise ValueError, and systems whose configuration is absent or load-tables-only must equal phase-less rebuilds.",
         "note": "Only well-typed configurations are generated (I10). Tolerance as C01 for laws, exact for the single-phase comparison, 3e-5 relative between two independently converged solutions.",
     },
+    "C07": {
+        "level": "exploration",
+        "ref": "DESIGN.md section 2, C07",
+        "technique": "property-based testing: re-aggregation oracle (domains, subsystem/total/average/energy rows recomputed from component rows and the spec) over generated multi-source systems in drawn insertion orders (Hypothesis)",
+        "text": "For generated systems with 1-3 sources, optional PMux and phases, built in a drawn topological insertion order, the expected domain of every component is derived from the spec (following the mux's selected input) and every Subsystem, System total, System average and 24h-energy cell is recomputed from the component rows and compared at 1e-9. The same aggregate oracle is run by the C16 state machine after edit histories, which covers the 'after any edit history' part of the quantifier.",
+        "note": "I3: Subsystem voltage = source row's Vin. Efficiency cells compared at 1e-7 absolute (percent).",
+    },
+    "C08": {
+        "level": "exploration",
+        "ref": "DESIGN.md section 2, C08",
+        "technique": "property-based testing: rail report recomputed from solve() rows and the spec's supplier relation (Hypothesis)",
+        "text": "Generated systems with rail names on any subset of non-loads (parents addressed by rail or name), limits that produce warnings, phases and PMux. Expected rows = exactly the (phase, rail) pairs with members by the spec's supplier relation; voltage, current, power, loss are re-summed from solve() rows (1e-9) and warning tokens are the union of the members'; without rails the report must equal solve() cell for cell.",
+        "note": "I7: None or empty frame accepted when rails feed nothing. Efficiency column of the report not asserted.",
+    },
+    "C09": {
+        "level": "exploration",
+        "ref": "DESIGN.md section 2, C09",
+        "technique": "property-based testing with two-pass boundary placement (limits put exactly on / 1e-9 beside observed quantities) against a reference warning predicate, plus exhaustive kinds x keys applicability table (Hypothesis + enumeration)",
+        "text": "A system is solved once, then limits are placed relative to the observed quantities (exactly on them, a hair above/below, half, double, negative-signed, min>max) on applicable and inapplicable keys, and the system is rebuilt and solved again. The Warnings cell must contain exactly the applicable keys whose quantity lies outside [min,max] (magnitude; tp signed), nothing when the phase is not listed, with Subsystem/System roll-up by expected domain and limits() showing the configured pairs. All 11x10 kind/key pairs are enumerated for applicability.",
+        "note": "Relies on solve() being deterministic between the two passes; quantities recomputed from reported cells with the same float operations.",
+    },
+    "C10": {
+        "level": "exploration",
+        "ref": "DESIGN.md section 2, C10",
+        "technique": "property-based testing: independent piecewise-linear reference (both triangulations inside a cell) vs the component's interpolator and vs solve() of a pinning probe system (Hypothesis)",
+        "text": "Generated well-conditioned 1-D and 2-D tables for every tabulated parameter of every kind are queried on all grid points, on grid lines, inside cells, in all 8 outside regions and far outside. Values must equal the table entry / 1-D linear value / one of the two cell triangulations within the corner range / the clamped value, never NaN; the same through the public API with both supply polarities; an all-equal table must behave as the constant.",
+        "note": "I4. 'Largest coordinate' taken over both axes. Direct stream uses the private _ipr._interp; tolerance 1e-7 relative.",
+    },
+    "C11": {
+        "level": "exploration",
+        "ref": "DESIGN.md section 2, C11",
+        "technique": "property-based testing: single-fault mutation of valid constructor calls against a must-reject predicate; sign-flip metamorphic relation in a probe system, every (kind, magnitude parameter) pair enumerated (Hypothesis + enumeration)",
+        "text": "Valid constructor calls for all 11 kinds receive exactly one invalidating mutation from the statement's list and must raise ValueError (unmutated calls must construct). Every parameter documented as a magnitude is given with both signs: the two components must produce identical solve() tables in a phase-switched probe system, with Loss >= 0, efficiency <= 100 and no amplification.",
+        "note": "I9 behavioural reading of 'treated as magnitudes'. Wrong-type scalars and NaN are outside the explored domain.",
+    },
+    "C12": {
+        "level": "exploration",
+        "ref": "DESIGN.md section 2, C12",
+        "technique": "property-based testing: save/load round trip compared through all reports + fixed point of the JSON document; version gate by rewriting the file's version (Hypothesis)",
+        "text": "Full-feature generated systems are saved and reloaded; solve(energy=True), rail_rep(), params(limits=True) on applicable keys and phases() must agree keyed by component/phase, the mux input order must survive, and saving the reloaded system must reproduce the same JSON document up to sibling order (which covers every stored parameter including tables and rectifier mode). Bumped versions must be refused with ValueError.",
+        "note": "Non-applicable limits are not persisted by design of the property ('applicable limits').",
+    },
+    "C13": {
+        "level": "exploration",
+        "ref": "DESIGN.md section 2, C13",
+        "technique": "property-based testing: differential TOML loader vs constructor in a probe system; single-fault files (missing mandatory key, wrong TOML type) (Hypothesis)",
+        "text": "For each kind generated kwargs are written as TOML and loaded; the loaded and the constructed component must give identical params(limits=True) and solve() tables in the same phase-switched probe system (absent optional keys = constructor defaults). Files with a mandatory key removed must raise KeyError and files with a wrongly typed value ValueError (generic loader); LinReg's ig/iq spellings are both exercised.",
+        "note": "TOML arrays written homogeneous. LinReg's own loader has no type gate (property excludes it from that clause).",
+    },
 }
